@@ -993,12 +993,32 @@ func (w *world) finalChecks() {
 	}
 	// C08: the gateway's direct counts equal the client's successful subscriptions
 	snap := w.serv.VerifSnapshot()
+	// C12 / C19: with every request answered no cached resource may still be waiting for its reset
+	// re-fetch (a request that was never sent, or a flag that was never cleared)
+	if len(w.mq.outstanding()) == 0 && w.taint == "" {
+		for _, e := range w.serv.VerifCache().VerifSnapshot() {
+			stuck := e.Base != nil && e.Base.Resetting
+			for _, q := range e.Queries {
+				stuck = stuck || q.Resetting
+			}
+			if stuck {
+				w.addViolation("C12", "resource-stuck-resetting", fmt.Sprintf("cached resource %s is still marked as being re-fetched although every request has been answered", w.absSubject(e.Name)))
+				if w.cfg.resetThrottle > 0 {
+					w.addViolation("C19", "refetch-never-started", fmt.Sprintf("the reset re-fetch of %s never happened although every request has been answered (throttle slot never handed on)", w.absSubject(e.Name)))
+				}
+			}
+		}
+	}
 	// C19: with every request answered nothing may still wait for a throttle slot
 	if (w.cfg.referenceThrottle > 0 || w.cfg.resetThrottle > 0) && len(w.mq.outstanding()) == 0 && w.taint == "" {
 		for _, cs := range snap {
 			for _, s := range cs.Subs {
 				if s.AccessCbs > 0 || s.Flags&1 != 0 {
 					w.addViolation("C19", "access-check-never-started", fmt.Sprintf("%s %s: an access check is still waiting although every request has been answered (throttle slot never handed on)", w.cname(cs.CID), s.RID))
+					if len(w.mon.gone) > 0 {
+						// C11: a connection that went away must not keep what others wait for
+						w.addViolation("C11", "stalled-after-disconnect", fmt.Sprintf("%s %s still waits for an access check after a connection was closed (a throttle slot it held was not given back)", w.cname(cs.CID), s.RID))
+					}
 				}
 			}
 		}
